@@ -529,6 +529,20 @@ func (o *authOracle) check(k int, c *obsCall) {
 				if !inThisCall && !covering {
 					o.fail(idx, "auth-bearer-not-covering", "cached_bearer_covers_required_scope", "scope ⊇ "+reqText, m.bearer)
 				}
+				if inThisCall && regs == 1 && !wantUnl {
+					// acquired before the first attempt (no challenge in this call yet): it was asked
+					// for on behalf of this request, so it has to cover what the request requires
+					ok := false
+					for _, g := range usable {
+						if g.call == k && (g.unlimited || required.subsetOf(naiveScope(g.scopeText))) {
+							ok = true
+						}
+					}
+					if !ok {
+						fail := o.fail
+						fail(idx, "auth-preemptive-bearer-not-covering", "preemptive_bearer_covers_required_scope", "scope ⊇ "+reqText, m.bearer)
+					}
+				}
 				if inThisCall && regs == 2 && chal != nil && chal.scheme == "bearer" && !wantUnl {
 					cs := naiveScope(chal.params["scope"])
 					ok := false
